@@ -90,7 +90,8 @@ size_t __wrap_fwrite(const void *b, size_t sz, size_t n, FILE *f) {
 /* a failing fclose is a failing flush: what stdio still buffers never reaches the file */
 int __wrap_fclose(FILE *f) { if (hit(W_FCLOSE)) { __fpurge(f); __real_fclose(f); errno = ERR(ENOSPC); return EOF; } return __real_fclose(f); }
 /* (errno is the caller's: every library call starts with a stale ERANGE in it) */
-#define LIB(x) do { in_lib = 1; errno = ERANGE; x; in_lib = 0; } while (0)
+static int lib_calls;
+#define LIB(x) do { in_lib = 1; errno = (lib_calls % 3 == 0) ? ERANGE : (lib_calls % 3 == 1) ? EINTR : EAGAIN; lib_calls++; x; in_lib = 0; } while (0)
 
 struct step { int k; unsigned pos, len; int cap; };
 struct res {
@@ -190,7 +191,7 @@ static void run_pass(struct op *ops, int nops, unsigned char fill, struct res *r
     switch (o->kind) {
     case 'C':
       if (o->a) { s->ext = 1; s->cap = o->b; s->buf = o->a == 2 ? ext_region_aligned(o->b, fill, &s->region, &s->rlen) : ext_region(o->b, fill, &s->region, &s->rlen); LIB(s->al = asm_create_instance(s->buf, o->b)); }
-      else { s->ext = 0; s->cap = 0; s->hiw = 0; s->gapped = 0; LIB(s->al = asm_create_instance(NULL, 0)); s->buf = s->al ? asm_get_code(s->al) : NULL; }
+      else { s->ext = 0; s->cap = 0; s->hiw = 0; s->gapped = 0; LIB(s->al = asm_create_instance(NULL, o->c));   /* (the length is documented as irrelevant without a buffer) */ s->buf = s->al ? asm_get_code(s->al) : NULL; }
       x->ret = s->al ? 0 : 1;
       break;
     case 'Z':
@@ -480,7 +481,7 @@ int main(void) {
     o->kind = ln[0];
     static char hex[1 << 22];
     switch (ln[0]) {
-    case 'C': { char kind[8]; int cap = 0; if (sscanf(ln + 2, "%d %7s %d", &o->i, kind, &cap) >= 2) { o->a = !strcmp(kind, "ext") ? 1 : !strcmp(kind, "exta") ? 2 : 0; o->b = cap; } break; }
+    case 'C': { char kind[8]; int cap = 0; if (sscanf(ln + 2, "%d %7s %d", &o->i, kind, &cap) >= 2) { o->a = !strcmp(kind, "ext") ? 1 : !strcmp(kind, "exta") ? 2 : 0; o->b = cap; o->c = o->a ? 0 : cap; } break; }   /* "int N": asm_create_instance(NULL, N) */
     case 'M': case 'D': case 'P': case 'X': sscanf(ln + 2, "%d", &o->i); break;
     case 'O': sscanf(ln + 2, "%d %15s %d", &o->i, o->s, &o->a); break;
     case 'K': sscanf(ln + 2, "%d %lld", &o->i, &o->wide); o->a = o->wide > (1LL << 30) ? (1 << 30) : (int)o->wide; break;   /* the chunk size is a size_t */
